@@ -7,6 +7,7 @@ goes through the real Connector -> in-process comms.Worker hop; the foreman
 side (remove, reset, trace, next, versions) calls dawgie.db directly.
 '''
 
+import contextlib
 import hashlib
 import os
 import pickle
@@ -129,6 +130,33 @@ def expand(content):
             BIG[h] = list(range(h, h + 30000))
         return {'head': BIG[h], 'tail': t}
     return content
+
+
+@contextlib.contextmanager
+def catalogue_write_fault(n):
+    '''the n-th write (from now) to a catalogue table - not the primary
+    table - fails once with ENOSPC; yields a one-element list that is set
+    when the fault fired'''
+    import shelve
+
+    real = shelve.Shelf.__setitem__
+    left = [n]
+    hit = [0]
+
+    def setitem(shelf, key, value):
+        if left[0] is not None and not str(key).startswith('('):
+            if left[0] == 0:
+                left[0] = None
+                hit[0] = 1
+                raise OSError(28, 'No space left on device (injected)')
+            left[0] -= 1
+        return real(shelf, key, value)
+
+    shelve.Shelf.__setitem__ = setitem
+    try:
+        yield hit
+    finally:
+        shelve.Shelf.__setitem__ = real
 
 
 class SimulatedCrash(BaseException):
